@@ -508,7 +508,7 @@ def oracle_C15_lines(lines, il):
             v.append("step %d case %d (stored type %d <- source type %d, form %d%s%s): stored %s, T(source item) is %s" % (
                 i, k, T, U, f, " rvalue" if rv else "", " varying" if var else "", got, exp))
         if U == 19:
-            moves = f == 7 or (f in (0, 1, 2, 3) and rv)
+            moves = f == 7 or (f in (0, 1, 2, 3) and rv)       # deque / reverse iterators (8, 9) copy
             expm = [1 if (moves and j < n) else 0 for j in range(len(vals))]
             if f == 2:
                 expm = None                # generated items are temporaries
